@@ -198,6 +198,8 @@ func (p *Parser) ParseReader(r io.Reader, args ...any) (data any, err error) {
 
 			return
 		}
+		// Keep the offset of the last newline relative to the next buffer.
+		p.noff -= len(buf) - skip
 		skip = 0
 		if eof {
 			break
